@@ -69,7 +69,7 @@ inline void stepRuleset(
     RsState& st,
     const std::string& key,
     int tick,
-    int64_t now_ms,
+    int64_t& now_ms, // advanced by actions that take time ("sleep_ms")
     const ScriptFn& script,
     int& next_chain,
     std::vector<Expect>& out) {
@@ -129,6 +129,7 @@ inline void stepRuleset(
     } else if (s.isObject()) {
       r = s.get("r", "C").asString();
       pause = s.get("pause", -1).asInt();
+      now_ms += s.get("sleep_ms", 0).asInt64(); // the action took that long; the pause starts when it returns
     }
     if (r == "S") {
       int d = pause >= 0 ? pause : rs.delay;
